@@ -98,6 +98,7 @@ type env struct {
 	ctx       []*space.Ty // available contexts
 	chain     []*env      // enclosing methods (origin path), innermost first
 	hasErr    bool
+	updNext   bool // the next struct rule application is an "update" assignment (default constructors)
 }
 
 type Result struct {
@@ -178,12 +179,111 @@ func (m *modeler) method(meth *Method) *rt.Plan {
 			return m.reject("field settings on non-struct target %s", d)
 		}
 	}
+	if meth.Update {
+		return m.updateMethod(e, meth)
+	}
 	if c, exists := m.findExtendCtx(e.ctx, meth.Src, meth.Dst); c != nil {
 		return m.custom(e, c, meth.Src, meth.Dst)
 	} else if exists {
 		return m.reject("extend for %s → %s needs unavailable contexts", meth.Src, meth.Dst)
 	}
+	if meth.Default != nil {
+		return m.defaultMethod(e, meth)
+	}
 	return m.rules(e, meth.Src, meth.Dst)
+}
+
+// updateMethod: goverter:update ARG. Target must be *struct, source struct or *struct.
+func (m *modeler) updateMethod(e *env, meth *Method) *rt.Plan {
+	t := meth.Dst
+	if t.K == space.Named || t.Under().K != space.Ptr || t.Under().Elem.Under().K != space.Struct {
+		if t.Under().K != space.Ptr || t.Under().Elem.Under().K != space.Struct {
+			return m.reject("update target %s is not a pointer to struct", t)
+		}
+	}
+	s := meth.Src
+	if s.Under().K != space.Struct {
+		if s.Under().K == space.Ptr && s.Under().Elem.Under().K == space.Struct {
+			s = s.Under().Elem
+		} else {
+			return m.reject("update source %s is not a struct or pointer to struct", s)
+		}
+	}
+	in := m.structRule(e, s, t.Under().Elem)
+	if in == nil {
+		return nil
+	}
+	return &rt.Plan{Op: "update", In: in}
+}
+
+// defaultMethod: goverter:default FUNC on a method (Appendix A.5).
+func (m *modeler) defaultMethod(e *env, meth *Method) *rt.Plan {
+	s, t, c := meth.Src, meth.Dst, meth.Default
+	su, tu := s.Under(), t.Under()
+	// the constructor result must fit the target (a value result may be addressed for a pointer target)
+	callT := t
+	toPtr := tu.K == space.Ptr && c.Dst.Under().K != space.Ptr
+	if toPtr {
+		callT = tu.Elem
+	}
+	cp := m.custom(e, c, s, callT)
+	if cp == nil {
+		return nil
+	}
+	p := &rt.Plan{Op: "default", K: cp}
+	if toPtr {
+		p.Fn = "addr"
+	}
+	switch {
+	case su.K == space.Ptr && tu.K == space.Ptr && su.Elem.Under().K == space.Struct && tu.Elem.Under().K == space.Struct && e.set.DefaultUpdate:
+		e.updNext = true
+		in := m.structRule(e, su.Elem, tu.Elem)
+		if in == nil {
+			return nil
+		}
+		p.Ref, p.In = "ptr-update", in
+	case su.K == space.Ptr && tu.K == space.Ptr:
+		in := m.rules(e, s, t)
+		if in == nil {
+			return nil
+		}
+		p.Ref, p.In = "nil-default", in
+	case su.K == space.Ptr && tu.K != space.Ptr:
+		if !e.set.UseZeroPtr {
+			return m.reject("*T to T without useZeroValueOnPointerInconsistency: %s → %s", s, t)
+		}
+		if e.set.DefaultUpdate && su.Elem.Under().K == space.Struct && tu.K == space.Struct {
+			e.updNext = true
+			in := m.structRule(e, su.Elem, t)
+			if in == nil {
+				return nil
+			}
+			p.Ref, p.In = "srcptr-update", in
+		} else {
+			in := m.rules(e, s, t)
+			if in == nil {
+				return nil
+			}
+			p.Ref, p.In = "nil-default", in
+		}
+	case su.K == space.Struct && tu.K == space.Ptr && tu.Elem.Under().K == space.Struct:
+		e.updNext = true
+		in := m.structRule(e, s, tu.Elem)
+		if in == nil {
+			return nil
+		}
+		p.Ref, p.In = "val2ptr", in
+	case su.K == space.Struct && tu.K == space.Struct:
+		in := m.structRule(e, s, t)
+		if in == nil {
+			return nil
+		}
+		p.Ref, p.In = "struct", in
+	default:
+		m.unspec("default FUNC on a method that is not a struct / struct pointer conversion")
+		return m.rules(e, s, t)
+	}
+	return p
 }
 
 // extendHits returns the registered extends for the signature after goverter's override rule: a later extend replaces an
@@ -585,6 +685,8 @@ func candidates(st *space.Ty, prefix []string, name string, ignoreCase bool) (ex
 }
 
 func (m *modeler) structRule(e *env, s, t *space.Ty) *rt.Plan {
+	upd := e.updNext
+	e.updNext = false
 	tu := t.Under()
 	applies := e.method != nil && e.fieldsKey == t.Key()
 	var autoMaps []*srcCand // path + struct type
@@ -673,7 +775,7 @@ func (m *modeler) structRule(e *env, s, t *space.Ty) *rt.Plan {
 				failed = true
 				continue
 			}
-			fp.ZeroGuard = m.zeroGuard(e, srcT, tf.T, false)
+			fp.ZeroGuard = m.zeroGuard(e, srcT, tf.T, false, upd)
 		} else {
 			fp.NoSource = fc.Fn.Src == nil
 			fp.Plan = m.custom(e, fc.Fn, srcT, tf.T)
@@ -682,7 +784,7 @@ func (m *modeler) structRule(e *env, s, t *space.Ty) *rt.Plan {
 				continue
 			}
 			if fc.Fn.Src != nil {
-				fp.ZeroGuard = m.zeroGuard(e, srcT, tf.T, true)
+				fp.ZeroGuard = m.zeroGuard(e, srcT, tf.T, true, upd)
 			}
 		}
 		plan.Fields = append(plan.Fields, fp)
@@ -703,11 +805,8 @@ func (m *modeler) structRule(e *env, s, t *space.Ty) *rt.Plan {
 }
 
 // zeroGuard: update methods / default:update assignments skip zero-valued sources of selected categories.
-func (m *modeler) zeroGuard(e *env, s, t *space.Ty, call bool) bool {
-	if e.method == nil || !(e.method.Update || (e.method.Default != nil && (e.set.DefaultUpdate || t != nil))) {
-		// refined by the update/default wrappers; inline non-update methods never guard
-	}
-	if e.method == nil || !e.method.Update {
+func (m *modeler) zeroGuard(e *env, s, t *space.Ty, call, upd bool) bool {
+	if e.method == nil || !(e.method.Update || upd) {
 		return false
 	}
 	su := s.Under()
